@@ -483,6 +483,25 @@ func genVectors(r *ObResult, n int, rng *rand.Rand, varW map[string]int) []map[s
 	}
 	sort.Strings(names)
 	var out []map[string]*big.Int
+	// half of the vectors are solver models of completed symbolic paths (they
+	// satisfy the harness assumptions and follow distinct paths), evenly spread
+	if k := len(r.PathModels); k > 0 {
+		want := n / 2
+		if want > k {
+			want = k
+		}
+		for i := 0; i < want; i++ {
+			m := r.PathModels[i*k/want]
+			c := map[string]*big.Int{}
+			for name, v := range m {
+				if !strings.HasPrefix(name, "uf!") {
+					c[name] = v
+				}
+			}
+			out = append(out, c)
+		}
+		n -= want
+	}
 	for i := 0; i < n; i++ {
 		m := map[string]*big.Int{}
 		for _, k := range names {
